@@ -110,6 +110,7 @@ def map_history(seed, k, nops):
     shorts = [rng.randrange(64) for _ in range(3)]
     inums = [rng.randrange(32) for _ in range(3)]
     evs = []
+    ambs = []
     for _ in range(nops):
         op = rng.choice(["add", "add", "decode", "decode", "retry", "retry", "clear"] if rng.random() < 0.3
                         else ["add", "decode", "decode", "retry", "retry"])
@@ -141,9 +142,14 @@ def map_history(seed, k, nops):
                 evs.append({"op": "decode", "f": f, "res": describe(e)})
             else:
                 try:
-                    amb = command.from_frame(frame.ForwardFrame(24, f))
-                    if type(amb).__name__ != "AmbiguousInstanceType":
-                        continue
+                    if ambs and rng.random() < 0.5:
+                        # the same pending event object is retried again, after the map may have changed
+                        f, amb = rng.choice(ambs)
+                    else:
+                        amb = command.from_frame(frame.ForwardFrame(24, f))
+                        if type(amb).__name__ != "AmbiguousInstanceType":
+                            continue
+                        ambs.append((f, amb))
                     r = amb.retry_decode(m)
                 except Exception:   # noqa
                     evs.append({"op": "retry", "f": f, "still": 0, "res": [-1, -1, -1, -1, -1, -1, -1]})
